@@ -162,7 +162,7 @@ func scenarios() []scen {
 
 func runRefusals(c *vf.Ctx, g *gitx.Git, bases []*wtlab.Base, only string) {
 	sc := scenarios()
-	per := c.N(6, 100)
+	per := c.N(4, 40)
 	var cases []caseT
 	for si, s := range sc {
 		if only != "" && !strings.Contains(s.label+":"+s.cause, only) {
@@ -188,9 +188,9 @@ func runRefusals(c *vf.Ctx, g *gitx.Git, bases []*wtlab.Base, only string) {
 	}
 	vf.Parallel(len(cases), 8, func(i int) { runRefusalCase(c, g, bases, cases[i]) })
 	if only == "" {
-		c.Floor("refusal cases in which the call returned an error", c.Counter("refused_calls"), c.N(200, 3500))
+		c.Floor("refusal cases in which the call returned an error", c.Counter("refused_calls"), c.N(150, 1500))
 		c.Floor("distinct (operation, cause) pairs refused", c.SeenCount("refused_scenarios"), 40)
-		c.Floor("refused calls that left the state unchanged", c.Counter("refused_unchanged"), c.N(120, 2000))
+		c.Floor("refused calls that left the state unchanged", c.Counter("refused_unchanged"), c.N(80, 800))
 	}
 }
 
@@ -207,11 +207,7 @@ func runRefusalCase(c *vf.Ctx, g *gitx.Git, bases []*wtlab.Base, k caseT) {
 		c.Broken("resolve ids case %d: %v", k.I, err)
 		return
 	}
-	pre := observe(g, dir)
-	if pre.S.St.GitError != "" {
-		c.Broken("case %d: git cannot observe the pre-state: %s", k.I, pre.S.St.GitError)
-		return
-	}
+	preFast := fastState(dir)
 	var rec *recfs.Rec
 	if k.Wrapped {
 		rec = recfs.New()
@@ -235,12 +231,36 @@ func runRefusalCase(c *vf.Ctx, g *gitx.Git, bases []*wtlab.Base, k caseT) {
 		c.Count("calls_not_refused", 1)
 		return
 	}
-	post := observe(g, dir)
-	c.Count("git_confirmations", 2)
 	c.Count("refused_calls", 1)
 	c.Seen("refused_scenarios", name)
 	c.Seen("refusal_errors", k.Label+"="+errClass(opErr))
-	set, det := changedSet(pre, post)
+	var set, det []string
+	if !sameFast(preFast, fastState(dir)) {
+		// some byte changed: let git decide what changed. The pre-state is rebuilt identically on a twin.
+		twin := dir + "-pre"
+		defer os.RemoveAll(twin)
+		if err := b.Materialize(g, twin, k.Cur, k.Edits); err != nil {
+			c.Broken("materialize twin of refusal case %d: %v", k.I, err)
+			return
+		}
+		tf := fastState(twin)
+		tf[".git/index"] = preFast[".git/index"] // the index embeds inode numbers and timestamps of the copy
+		if !sameFast(preFast, tf) {
+			c.Broken("case %d (%s): the rebuilt pre-state differs from the original pre-state", k.I, name)
+			return
+		}
+		pre := observe(g, twin)
+		if pre.S.St.GitError != "" {
+			c.Broken("case %d: git cannot observe the pre-state: %s", k.I, pre.S.St.GitError)
+			return
+		}
+		post := observe(g, dir)
+		c.Count("git_confirmations", 2)
+		set, det = changedSet(pre, post)
+		if len(set) == 0 {
+			c.Count("byte_change_without_observable_change", 1)
+		}
+	}
 	c.Eval(vf.ShapeHash(name, errClass(opErr), strings.Join(set, "+"), len(k.Edits)), true)
 	if k.I%53 == 0 {
 		c.Sample(map[string]any{"case": k, "error": fmt.Sprint(opErr), "changed": set})
@@ -249,7 +269,21 @@ func runRefusalCase(c *vf.Ctx, g *gitx.Git, bases []*wtlab.Base, k caseT) {
 		c.Count("refused_unchanged", 1)
 		return
 	}
-	key := name + ":" + strings.Join(set, "+")
+	keySet := set
+	if k.Cause == "untracked-blocks-path" {
+		// the call fails half-way on an OS error; how many tracked files were already rewritten
+		// depends on the processing order, so "worktree" does not distinguish findings here
+		keySet = nil
+		for _, x := range set {
+			if x != "worktree" {
+				keySet = append(keySet, x)
+			}
+		}
+		if len(keySet) == 0 {
+			keySet = set
+		}
+	}
+	key := name + ":" + strings.Join(keySet, "+")
 	if os.Getenv("VERIF_DEBUG_LOSS") != "" {
 		fmt.Printf("CHANGED case=%d %s err=%v changed=%v detail=%q edits=%+v\n", k.I, name, opErr, set, det, k.Edits)
 	}
